@@ -72,9 +72,27 @@ def _(conjuction, words):
     result_sort('str')
 
 
+@contract("yatiml/util.py::_describe_allowed_present_keys")
+def _(got, all_keys, missing):
+    trusted()
+    sort('got', 'opaque')
+    sort('all_keys', 'opaque')
+    result_sort('str')
+
+
+@contract("yatiml/util.py::diagnose_extraneous_key")
+def _(name, got, expected_type):
+    properties('C17', 'C08')
+    sort('got', 'Seq[str]')
+    sort('expected_type', 'Ty')
+    result_sort('str')
+    # the message names the offending key, quoted
+    ensures(contains(result, '"' + name + '"'))
+
+
 @contract("yatiml/util.py::diagnose_missing_key")
 def _(name, got, expected_type):
-    trusted()
+    properties('C17', 'C08')
     sort('got', 'Seq[str]')
     sort('expected_type', 'Ty')
     result_sort('str')
@@ -86,3 +104,6 @@ def _(rec_error):
     trusted()
     sort('rec_error', 'RErr')
     result_sort('str')
+    # prints the leaves of the error tree: if every leaf cites a position so
+    # does the text (assumed here, argued in DESIGN; bounded stand-in)
+    ensures(implies(leafcite(rec_error), cites(result)))
